@@ -90,7 +90,15 @@ def build(spec, variables=None):
 
 
 def describe_object(fs):
-    leaves = [tuple(p) for p in fs.get_all_paths() if p]
+    def walk(node, pre, depth=0):
+        node = node.get_dereferenced(); out = []
+        if depth > 8: return out
+        for f, sub in node.content.items():
+            subpaths = walk(sub, pre + (f,), depth + 1)
+            out += subpaths if subpaths else [pre + (f,)]
+        return out
+    # paths are read through dereferenced nodes (get_all_paths() does not follow forwarding pointers and misses what a bound variable carries)
+    leaves = walk(fs, ())
     vals = {p: fs.get_feature_by_path(list(p)).value for p in leaves}
     nodes = {p: fs.get_feature_by_path(list(p)).get_dereferenced() for p in leaves}
     share = []
@@ -111,5 +119,6 @@ def random_spec(rng, depth=0, feats=('n', 'p', 'agr', 'subj', 'obj'), vars_=('x'
         if isinstance(t, list):
             r = rng.random()
             out[f] = rng.choice(t) if r < 0.55 else (None if r < 0.7 else ('var', rng.choice(vars_) + ('n' if f == 'n' else 'p')))
+        elif rng.random() < 0.25: out[f] = ('var', rng.choice(vars_) + '_' + ('agr' if f == 'agr' else 'c'))       # a variable standing for a nested value
         elif depth < 2: out[f] = random_spec(rng, depth + 1, sorted(t), vars_)
     return out
